@@ -481,6 +481,13 @@ pub fn idiom_n(r: &mut Rng, d: Dim, out: &mut Vec<u8>, k: u64) {
             }
             out.extend(format!("3{}", r.below(8)).as_bytes());
             out.push(*r.pick(&[b'm', b'H', b'r', b'h', b'J', b'q']));
+            if r.chance(1, 3) {
+                // the same with the private marker: a long DECSET / DECRST list of real modes
+                let n = 30 + r.below(8);
+                let modes = ["1", "2004", "25", "1000", "1006", "9", "1002", "1005", "1003"];
+                let list: Vec<&str> = (0..n).map(|_| *r.pick(&modes)).collect();
+                out.extend(format!("\x1b[?{}{}", list.join(";"), if r.chance(1, 2) { 'h' } else { 'l' }).as_bytes());
+            }
             gen_text(r, out);
         }
         77 => {
@@ -1529,6 +1536,18 @@ fn table_ops() -> Vec<Vec<u8>> {
             v.push(format!("\x1b]{sel}{term}").into_bytes());
             v.push(format!("\x1b]{sel};a;b{term}").into_bytes());
         }
+    }
+    // DECSET / DECRST lists at and beyond vte's limit of 32 parameters (the first 32 still apply)
+    for n in [31usize, 32, 33, 34, 40] {
+        for fin in ["h", "l"] {
+            let modes = ["1", "2004", "25", "1000", "1006", "9", "1002", "1005", "1003", "6"];
+            let list: Vec<&str> = (0..n).map(|i| modes[i % modes.len()]).collect();
+            v.push(format!("\x1b[?{}{fin}", list.join(";")).into_bytes());
+            v.push(format!("\x1b[?1;25;2004;1003;1006h\x1b[?{}{fin}", list.join(";")).into_bytes());
+        }
+        let sg: Vec<String> = (0..n).map(|i| format!("{}", [1, 3, 4, 7, 31, 42, 22, 23][i % 8])).collect();
+        v.push(format!("\x1b[{}m", sg.join(";")).into_bytes());
+        v.push(format!("\x1b[?{}J", vec!["0"; n].join(";")).into_bytes());
     }
     // DECSET / DECRST with sub-parameters on recognised mode numbers (must stay unrecognised)
     for m in ["1", "6", "9", "25", "47", "1000", "1002", "1003", "1005", "1006", "1049", "2004"] {
